@@ -86,7 +86,8 @@ def rtypeOfCode (code : Nat) : Option RType :=
   else if code = 65305 then some .aname else if code = 13 then some .hinfo
   else if code = 257 then some .caa else if code = 52 then some .tlsa
   else if code = 53 then some .smimea else if code = 43 then some .ds
-  else if code = 44 then some .sshfp else none
+  else if code = 44 then some .sshfp else if code = 37 then some .cert
+  else if code = 61 then some .openpgpkey else none
 
 theorem lookup_mem_gen {α β} [BEq α] [LawfulBEq α] {l : List (α × β)} {k : α} {v : β}
     (h : l.lookup k = some v) : (k, v) ∈ l := by
